@@ -13,7 +13,7 @@ import (
 type LinkWalk struct {
 	Fn     *ssa.Function
 	Header *ssa.BasicBlock
-	Phi    *ssa.Phi   // the walked element (or the tuple it is extracted from)
+	Phi    *ssa.Phi    // the walked element (or the tuple it is extracted from)
 	Lookup *ssa.Lookup // the lookup on the back edge
 	Map    *Term
 	Link   string // link field name
@@ -179,9 +179,9 @@ func hasRangeOverGlobal(fn *ssa.Function, globalSuffix string) bool {
 // walkBody: the code that runs once per element of a link walk — the function containing the walk itself, or a
 // callback that a walking helper invokes on every iteration.
 type walkBody struct {
-	Fn   *ssa.Function      // where the per-element code lives
-	Walk LinkWalk           // the walk (in Fn, or in the helper)
-	MC   *ssa.MakeClosure   // the callback's creation site (nil for a direct walk)
+	Fn   *ssa.Function       // where the per-element code lives
+	Walk LinkWalk            // the walk (in Fn, or in the helper)
+	MC   *ssa.MakeClosure    // the callback's creation site (nil for a direct walk)
 	Call ssa.CallInstruction // the per-iteration invocation of the callback inside the helper (nil for a direct walk)
 }
 
